@@ -262,17 +262,20 @@ class Unit:
                 # statement line matching regex (unique) inside the body
                 body = src[bo:be]
                 hits = [mo for mo in re.finditer(rx, body, flags=re.M)]
-                if len(hits) != 1:
+                if where.endswith('all'):
+                    if len(hits) < 1:
+                        raise LostAnchor('%s: proof anchor /%s/ matched %d times' % (disp, rx, len(hits)))
+                elif len(hits) != 1:
                     raise LostAnchor('%s: proof anchor /%s/ matched %d times' % (disp, rx, len(hits)))
-                mo = hits[0]
-                if where == 'before':
-                    off = bo + body.rfind('\n', 0, mo.start()) + 1
-                else:
-                    e = body.find('\n', mo.end())
-                    off = bo + e + 1
-                ins = [(t + '\n', ('vspec', blk.file, no)) for t, no in blk.lines]
-                edits.append((off, 0, ins))
-                self.report['rewrites'].append({'rule': 'proof-anchor', 'file': repo_file, 'line': line(off), 'before': '', 'after': blk.text()})
+                for mo in hits:
+                    if where.startswith('before'):
+                        off = bo + body.rfind('\n', 0, mo.start()) + 1
+                    else:
+                        e = body.find('\n', mo.end())
+                        off = bo + e + 1
+                    ins = [(t + '\n', ('vspec', blk.file, no)) for t, no in blk.lines]
+                    edits.append((off, 0, ins))
+                    self.report['rewrites'].append({'rule': 'proof-anchor', 'file': repo_file, 'line': line(off), 'before': '', 'after': blk.text()})
         # world call sites (R4)
         if c and c.world and world_callees:
             for mo in re.finditer(r'\(', m[bo:be]):
@@ -496,7 +499,7 @@ class Unit:
                 node = node.setdefault('mods', {}).setdefault(seg, {})
             node.setdefault('files', []).append(repo_file)
         mod_prelude = self.cfg.get('module_prelude',
-            '#[allow(unused_imports)] use vstd::prelude::*;\n#[allow(unused_imports)] use crate::{pnet, log};\n#[allow(unused_imports)] use crate::shim::*;\n#[allow(unused_imports)] use crate::{World, Ev, Layer, Verb};\n#[allow(unused_imports)] use crate::pnet::cksum::*;\n#[allow(unused_imports)] use crate::pnet::pspec::*;\n#[allow(unused_imports)] use crate::pnet_lemmas::*;\n#[allow(unused_imports)] use crate::pnet::util::{mac_bytes, mac_at};\n#[allow(unused_imports)] use crate::client::*;\n#[allow(unused_imports)] use crate::evspec::*;\n#[allow(unused_imports)] use crate::appspec::*;\n#[allow(unused_imports)] use crate::cfgspec::*;\n#[allow(unused_imports)] use crate::tcpspec::*;\n#[allow(unused_imports)] use crate::tcbspec::*;\nbroadcast use {crate::evspec::group_events, crate::shim::group_ip_axioms, crate::shim::axiom_ipaddr_key_model, crate::pnet::util::axiom_macaddr_key_model, vstd::std_specs::hash::group_hash_axioms, crate::tcbspec::axiom_base_state_ok, crate::pnet_lemmas::group_pnet_fields};\n')
+            '#[allow(unused_imports)] use vstd::prelude::*;\n#[allow(unused_imports)] use crate::{pnet, log};\n#[allow(unused_imports)] use crate::shim::*;\n#[allow(unused_imports)] use crate::{World, Ev, Layer, Verb};\n#[allow(unused_imports)] use crate::pnet::cksum::*;\n#[allow(unused_imports)] use crate::pnet::pspec::*;\n#[allow(unused_imports)] use crate::pnet_lemmas::*;\n#[allow(unused_imports)] use crate::pnet::util::{mac_bytes, mac_at};\n#[allow(unused_imports)] use crate::client::*;\n#[allow(unused_imports)] use crate::evspec::*;\n#[allow(unused_imports)] use crate::appspec::*;\n#[allow(unused_imports)] use crate::cfgspec::*;\n#[allow(unused_imports)] use crate::tcpspec::*;\n#[allow(unused_imports)] use crate::tcbspec::*;\nbroadcast use {crate::evspec::group_events, crate::shim::group_ip_axioms, crate::shim::axiom_ipaddr_key_model, crate::pnet::util::axiom_macaddr_key_model, vstd::std_specs::hash::group_hash_axioms, crate::tcbspec::axiom_base_state_ok, crate::pnet_lemmas::group_pnet_fields, crate::pnet::cksum::axiom_pseudo6_swap};\n')
         def emit_node(node, depth, path=()):
             for f in node.get('files', []):
                 em.emit('// ---- extracted from %s\n' % f, ('gen', None, 0))
